@@ -1,10 +1,1301 @@
-//! C19 — stub: property not yet claimed.
+//! C19 — reflection resolves every registered symbol and file, and nothing else.
+//!
+//! A case is a builder configuration, a list of registrations (descriptor sets given decoded,
+//! encoded, or as bytes prost rejects) and a list of request streams.  `execute` builds the REAL
+//! `tonic_reflection::server::Builder` twice (`build_v1`, `build_v1alpha`), drives each service
+//! in-process through its generated client (`ServerReflectionClient` directly over
+//! `ServerReflectionServer`, i.e. the real codec, `client::Grpc`, `server::Grpc` and the request
+//! loop) and canonicalises every response:
+//!   * a file descriptor response is decoded with prost and compared (full prost equality) with
+//!     every registered `FileDescriptorProto`; the token is the smallest matching index in
+//!     registration order (`fd <i>`), the own reflection descriptor being the last index;
+//!   * errors are `err <code> <hex message>`.
+//!
+//! Case grammar (tokens; optional names are `-` or `x<hex>`):
+//!   case   := <kind label> inc <0|1> chosen (none | <k> name*k) regs <n> reg*n streams <s> stream*s
+//!             [own <file> <file>]                      -- v1 then v1alpha own descriptor, iff inc=1
+//!   reg    := S <k> file*k | E <k> file*k | B <hex>
+//!   file   := F <name?> <pkg?> <extra> <k> msg*k <k> enum*k <k> svc*k
+//!   msg    := <name?> <k> msg*k <k> enum*k <k> name?*k <k> name?*k      (nested, enums, fields, oneofs)
+//!   enum   := <name?> <k> name?*k
+//!   svc    := <name?> <k> name?*k
+//!   stream := <k> req*k
+//!   req    := <host> (N | F <hex> | Y <hex> | X <hex> <num> | A <hex> | L <hex>)
 use crate::common::*;
+use prost::Message;
+use prost_types::{
+    DescriptorProto, EnumDescriptorProto, EnumValueDescriptorProto, FieldDescriptorProto,
+    FileDescriptorProto, FileDescriptorSet, MethodDescriptorProto, OneofDescriptorProto,
+    ServiceDescriptorProto,
+};
+use std::collections::BTreeSet;
+use tonic_reflection::server::{Builder, Error};
 
-pub fn generate(_tier: &str, _rng: &mut Rng) -> Vec<String> {
-    Vec::new()
+type Nm = Option<String>;
+
+#[derive(Clone, Debug, PartialEq)]
+struct EnumD {
+    name: Nm,
+    values: Vec<Nm>,
+}
+#[derive(Clone, Debug, PartialEq)]
+struct Msg {
+    name: Nm,
+    nested: Vec<Msg>,
+    enums: Vec<EnumD>,
+    fields: Vec<Nm>,
+    oneofs: Vec<Nm>,
+}
+#[derive(Clone, Debug, PartialEq)]
+struct Svc {
+    name: Nm,
+    methods: Vec<Nm>,
+}
+#[derive(Clone, Debug, PartialEq)]
+struct FileD {
+    name: Nm,
+    package: Nm,
+    extra: u64,
+    msgs: Vec<Msg>,
+    enums: Vec<EnumD>,
+    svcs: Vec<Svc>,
+}
+#[derive(Clone, Debug)]
+enum Reg {
+    S(Vec<FileD>),
+    E(Vec<FileD>),
+    B(Vec<u8>),
+}
+#[derive(Clone, Debug)]
+enum ReqK {
+    N,
+    F(String),
+    Y(String),
+    X(String, i32),
+    A(String),
+    L(String),
+}
+#[derive(Clone, Debug)]
+struct Req {
+    host: String,
+    k: ReqK,
+}
+#[derive(Clone, Debug)]
+struct Case {
+    inc: bool,
+    chosen: Option<Vec<String>>,
+    regs: Vec<Reg>,
+    streams: Vec<Vec<Req>>,
+    own: Option<(FileD, FileD)>,
 }
 
-pub fn execute(_case: &str) -> String {
-    "unclaimed".into()
+// ---------------------------------------------------------------- rendering
+
+fn nm_tok(n: &Nm) -> String {
+    match n {
+        None => "-".into(),
+        Some(s) => hex(s.as_bytes()),
+    }
+}
+fn push_names(out: &mut Vec<String>, ns: &[Nm]) {
+    out.push(ns.len().to_string());
+    for n in ns {
+        out.push(nm_tok(n));
+    }
+}
+fn push_enum(out: &mut Vec<String>, e: &EnumD) {
+    out.push(nm_tok(&e.name));
+    push_names(out, &e.values);
+}
+fn push_msg(out: &mut Vec<String>, m: &Msg) {
+    out.push(nm_tok(&m.name));
+    out.push(m.nested.len().to_string());
+    for x in &m.nested {
+        push_msg(out, x);
+    }
+    out.push(m.enums.len().to_string());
+    for e in &m.enums {
+        push_enum(out, e);
+    }
+    push_names(out, &m.fields);
+    push_names(out, &m.oneofs);
+}
+fn push_file(out: &mut Vec<String>, f: &FileD) {
+    out.push("F".into());
+    out.push(nm_tok(&f.name));
+    out.push(nm_tok(&f.package));
+    out.push(f.extra.to_string());
+    out.push(f.msgs.len().to_string());
+    for m in &f.msgs {
+        push_msg(out, m);
+    }
+    out.push(f.enums.len().to_string());
+    for e in &f.enums {
+        push_enum(out, e);
+    }
+    out.push(f.svcs.len().to_string());
+    for s in &f.svcs {
+        out.push(nm_tok(&s.name));
+        push_names(out, &s.methods);
+    }
+}
+fn render_case(c: &Case) -> String {
+    let mut o: Vec<String> = Vec::new();
+    o.push("inc".into());
+    o.push(if c.inc { "1" } else { "0" }.into());
+    o.push("chosen".into());
+    match &c.chosen {
+        None => o.push("none".into()),
+        Some(l) => {
+            o.push(l.len().to_string());
+            for s in l {
+                o.push(hex(s.as_bytes()));
+            }
+        }
+    }
+    o.push("regs".into());
+    o.push(c.regs.len().to_string());
+    for r in &c.regs {
+        match r {
+            Reg::S(fs) | Reg::E(fs) => {
+                o.push(if matches!(r, Reg::S(_)) { "S" } else { "E" }.into());
+                o.push(fs.len().to_string());
+                for f in fs {
+                    push_file(&mut o, f);
+                }
+            }
+            Reg::B(b) => {
+                o.push("B".into());
+                o.push(hex(b));
+            }
+        }
+    }
+    o.push("streams".into());
+    o.push(c.streams.len().to_string());
+    for s in &c.streams {
+        o.push(s.len().to_string());
+        for r in s {
+            o.push(hex(r.host.as_bytes()));
+            match &r.k {
+                ReqK::N => o.push("N".into()),
+                ReqK::F(s) => {
+                    o.push("F".into());
+                    o.push(hex(s.as_bytes()))
+                }
+                ReqK::Y(s) => {
+                    o.push("Y".into());
+                    o.push(hex(s.as_bytes()))
+                }
+                ReqK::X(s, n) => {
+                    o.push("X".into());
+                    o.push(hex(s.as_bytes()));
+                    o.push(n.to_string())
+                }
+                ReqK::A(s) => {
+                    o.push("A".into());
+                    o.push(hex(s.as_bytes()))
+                }
+                ReqK::L(s) => {
+                    o.push("L".into());
+                    o.push(hex(s.as_bytes()))
+                }
+            }
+        }
+    }
+    if let Some((a, b)) = &c.own {
+        o.push("own".into());
+        push_file(&mut o, a);
+        push_file(&mut o, b);
+    }
+    o.join(" ")
+}
+
+// ---------------------------------------------------------------- parsing
+
+struct P<'a> {
+    t: Vec<&'a str>,
+    i: usize,
+}
+impl<'a> P<'a> {
+    fn next(&mut self) -> Option<&'a str> {
+        let r = self.t.get(self.i).copied();
+        self.i += 1;
+        r
+    }
+    fn expect(&mut self, s: &str) -> Option<()> {
+        if self.next()? == s {
+            Some(())
+        } else {
+            None
+        }
+    }
+    fn num(&mut self) -> Option<usize> {
+        self.next()?.parse().ok()
+    }
+    fn string(&mut self) -> Option<String> {
+        String::from_utf8(unhex(self.next()?)?).ok()
+    }
+    fn nm(&mut self) -> Option<Nm> {
+        let t = self.next()?;
+        if t == "-" {
+            Some(None)
+        } else {
+            Some(Some(String::from_utf8(unhex(t)?).ok()?))
+        }
+    }
+    fn names(&mut self) -> Option<Vec<Nm>> {
+        let k = self.num()?;
+        (0..k).map(|_| self.nm()).collect()
+    }
+    fn enumd(&mut self) -> Option<EnumD> {
+        Some(EnumD { name: self.nm()?, values: self.names()? })
+    }
+    fn msg(&mut self, depth: usize) -> Option<Msg> {
+        if depth > 64 {
+            return None;
+        }
+        let name = self.nm()?;
+        let k = self.num()?;
+        let nested = (0..k).map(|_| self.msg(depth + 1)).collect::<Option<Vec<_>>>()?;
+        let k = self.num()?;
+        let enums = (0..k).map(|_| self.enumd()).collect::<Option<Vec<_>>>()?;
+        let fields = self.names()?;
+        let oneofs = self.names()?;
+        Some(Msg { name, nested, enums, fields, oneofs })
+    }
+    fn file(&mut self) -> Option<FileD> {
+        self.expect("F")?;
+        let name = self.nm()?;
+        let package = self.nm()?;
+        let extra = self.next()?.parse().ok()?;
+        let k = self.num()?;
+        let msgs = (0..k).map(|_| self.msg(0)).collect::<Option<Vec<_>>>()?;
+        let k = self.num()?;
+        let enums = (0..k).map(|_| self.enumd()).collect::<Option<Vec<_>>>()?;
+        let k = self.num()?;
+        let svcs = (0..k)
+            .map(|_| Some(Svc { name: self.nm()?, methods: self.names()? }))
+            .collect::<Option<Vec<_>>>()?;
+        Some(FileD { name, package, extra, msgs, enums, svcs })
+    }
+    fn case(&mut self) -> Option<Case> {
+        self.expect("inc")?;
+        let inc = match self.next()? {
+            "0" => false,
+            "1" => true,
+            _ => return None,
+        };
+        self.expect("chosen")?;
+        let chosen = if self.t.get(self.i).copied()? == "none" {
+            self.i += 1;
+            None
+        } else {
+            let k = self.num()?;
+            Some((0..k).map(|_| self.string()).collect::<Option<Vec<_>>>()?)
+        };
+        self.expect("regs")?;
+        let n = self.num()?;
+        let mut regs = Vec::new();
+        for _ in 0..n {
+            match self.next()? {
+                "S" => {
+                    let k = self.num()?;
+                    regs.push(Reg::S((0..k).map(|_| self.file()).collect::<Option<Vec<_>>>()?));
+                }
+                "E" => {
+                    let k = self.num()?;
+                    regs.push(Reg::E((0..k).map(|_| self.file()).collect::<Option<Vec<_>>>()?));
+                }
+                "B" => regs.push(Reg::B(unhex(self.next()?)?)),
+                _ => return None,
+            }
+        }
+        self.expect("streams")?;
+        let s = self.num()?;
+        let mut streams = Vec::new();
+        for _ in 0..s {
+            let k = self.num()?;
+            let mut reqs = Vec::new();
+            for _ in 0..k {
+                let host = self.string()?;
+                let k = match self.next()? {
+                    "N" => ReqK::N,
+                    "F" => ReqK::F(self.string()?),
+                    "Y" => ReqK::Y(self.string()?),
+                    "X" => {
+                        let s = self.string()?;
+                        ReqK::X(s, self.next()?.parse().ok()?)
+                    }
+                    "A" => ReqK::A(self.string()?),
+                    "L" => ReqK::L(self.string()?),
+                    _ => return None,
+                };
+                reqs.push(Req { host, k });
+            }
+            streams.push(reqs);
+        }
+        let own = if inc {
+            self.expect("own")?;
+            Some((self.file()?, self.file()?))
+        } else {
+            None
+        };
+        if self.i != self.t.len() {
+            return None;
+        }
+        Some(Case { inc, chosen, regs, streams, own })
+    }
+}
+
+fn parse_case(s: &str) -> Option<Case> {
+    let mut p = P { t: s.split(' ').filter(|x| !x.is_empty()).collect(), i: 0 };
+    // leading label (`corpus`, `structured`, …): only for the evidence statistics
+    if p.t.first().map_or(false, |t| *t != "inc") {
+        p.i = 1;
+    }
+    p.case()
+}
+
+// ---------------------------------------------------------------- descriptor <-> prost
+
+/// `rich = false`: a skeleton descriptor (names only; what `ReflWire.encFile` models byte for
+/// byte).  `rich = true`: numbers, labels, types as protoc would write them.
+fn enum_proto(e: &EnumD, rich: bool) -> EnumDescriptorProto {
+    EnumDescriptorProto {
+        name: e.name.clone(),
+        value: e
+            .values
+            .iter()
+            .enumerate()
+            .map(|(i, v)| EnumValueDescriptorProto { name: v.clone(), number: if rich { Some(i as i32) } else { None }, options: None })
+            .collect(),
+        ..Default::default()
+    }
+}
+fn msg_proto(m: &Msg, rich: bool) -> DescriptorProto {
+    DescriptorProto {
+        name: m.name.clone(),
+        nested_type: m.nested.iter().map(|x| msg_proto(x, rich)).collect(),
+        enum_type: m.enums.iter().map(|x| enum_proto(x, rich)).collect(),
+        field: m
+            .fields
+            .iter()
+            .enumerate()
+            .map(|(i, f)| FieldDescriptorProto {
+                name: f.clone(),
+                number: if rich { Some(i as i32 + 1) } else { None },
+                label: if rich { Some(1) } else { None },
+                r#type: if rich { Some(9) } else { None },
+                json_name: if rich { f.clone() } else { None },
+                ..Default::default()
+            })
+            .collect(),
+        oneof_decl: m.oneofs.iter().map(|o| OneofDescriptorProto { name: o.clone(), options: None }).collect(),
+        ..Default::default()
+    }
+}
+/// Deterministic and injective on `FileD`: everything the model does not look at is a function
+/// of `extra`.
+fn file_proto(f: &FileD) -> FileDescriptorProto {
+    let x = f.extra;
+    let rich = x != 0;
+    FileDescriptorProto {
+        name: f.name.clone(),
+        package: f.package.clone(),
+        dependency: if x == 0 { vec![] } else { vec![format!("dep{}.proto", x)] },
+        public_dependency: if x % 2 == 1 { vec![0] } else { vec![] },
+        syntax: match x % 3 {
+            0 => None,
+            1 => Some("proto3".into()),
+            _ => Some("proto2".into()),
+        },
+        options: if x >= 2 {
+            Some(prost_types::FileOptions { java_package: Some(format!("com.example.x{}", x)), deprecated: Some(true), ..Default::default() })
+        } else {
+            None
+        },
+        source_code_info: if x >= 3 {
+            Some(prost_types::SourceCodeInfo {
+                location: vec![prost_types::source_code_info::Location {
+                    path: vec![4, 0],
+                    span: vec![1, 2, 3],
+                    leading_comments: Some("// é comment".into()),
+                    ..Default::default()
+                }],
+            })
+        } else {
+            None
+        },
+        message_type: f.msgs.iter().map(|m| msg_proto(m, rich)).collect(),
+        enum_type: f.enums.iter().map(|e| enum_proto(e, rich)).collect(),
+        service: f
+            .svcs
+            .iter()
+            .map(|s| ServiceDescriptorProto {
+                name: s.name.clone(),
+                method: s
+                    .methods
+                    .iter()
+                    .map(|m| MethodDescriptorProto {
+                        name: m.clone(),
+                        input_type: if rich { Some(".google.protobuf.Empty".into()) } else { None },
+                        ..Default::default()
+                    })
+                    .collect(),
+                options: None,
+            })
+            .collect(),
+        ..Default::default()
+    }
+}
+fn enum_of_proto(e: &EnumDescriptorProto) -> EnumD {
+    EnumD { name: e.name.clone(), values: e.value.iter().map(|v| v.name.clone()).collect() }
+}
+fn msg_of_proto(m: &DescriptorProto) -> Msg {
+    Msg {
+        name: m.name.clone(),
+        nested: m.nested_type.iter().map(msg_of_proto).collect(),
+        enums: m.enum_type.iter().map(enum_of_proto).collect(),
+        fields: m.field.iter().map(|f| f.name.clone()).collect(),
+        oneofs: m.oneof_decl.iter().map(|o| o.name.clone()).collect(),
+    }
+}
+/// `extra` of a real (protoc-made) descriptor: its content beyond the names is opaque.
+const OPAQUE: u64 = 999;
+
+/// The name skeleton of a real descriptor (used for the reflection services' own descriptors).
+fn file_of_proto(f: &FileDescriptorProto) -> FileD {
+    FileD {
+        name: f.name.clone(),
+        package: f.package.clone(),
+        extra: OPAQUE,
+        msgs: f.message_type.iter().map(msg_of_proto).collect(),
+        enums: f.enum_type.iter().map(enum_of_proto).collect(),
+        svcs: f
+            .service
+            .iter()
+            .map(|s| Svc { name: s.name.clone(), methods: s.method.iter().map(|m| m.name.clone()).collect() })
+            .collect(),
+    }
+}
+fn own_protos() -> (FileDescriptorProto, FileDescriptorProto) {
+    let a = FileDescriptorSet::decode(tonic_reflection::pb::v1::FILE_DESCRIPTOR_SET).expect("own v1");
+    let b = FileDescriptorSet::decode(tonic_reflection::pb::v1alpha::FILE_DESCRIPTOR_SET).expect("own v1alpha");
+    assert!(a.file.len() == 1 && b.file.len() == 1);
+    (a.file[0].clone(), b.file[0].clone())
+}
+
+// ---------------------------------------------------------------- execution against the real code
+
+fn builder_for<'b>(c: &Case, encoded: &'b [Option<Vec<u8>>]) -> Builder<'b> {
+    let mut b = Builder::configure();
+    // call order = registration order of the case (the builder itself separates the two kinds)
+    for (i, r) in c.regs.iter().enumerate() {
+        match r {
+            Reg::S(fs) => {
+                b = b.register_file_descriptor_set(FileDescriptorSet { file: fs.iter().map(file_proto).collect() });
+            }
+            Reg::E(_) | Reg::B(_) => {
+                b = b.register_encoded_file_descriptor_set(encoded[i].as_ref().unwrap());
+            }
+        }
+    }
+    if let Some(l) = &c.chosen {
+        for s in l {
+            b = b.with_service_name(s.clone());
+        }
+    }
+    b.include_reflection_service(c.inc)
+}
+
+fn build_err(e: &Error) -> String {
+    match e {
+        Error::DecodeError(_) => "build-err decode".into(),
+        Error::InvalidFileDescriptorSet(s) => format!("build-err invalid {}", hex(s.as_bytes())),
+    }
+}
+
+fn fnv1a(b: &[u8]) -> u64 {
+    let mut h: u64 = 0xcbf29ce484222325;
+    for x in b {
+        h = (h ^ (*x as u64)).wrapping_mul(0x100000001b3);
+    }
+    h
+}
+
+/// `fd <i> <bytes>`: index of the registered descriptor the answer decodes to (prost, full
+/// equality) and the answer bytes themselves: `-` when descriptor i is opaque (`extra != 0`),
+/// the bytes when at most 96 of them, else their FNV-1a digest.
+fn fd_token(bytes: &[Vec<u8>], all: &[FileDescriptorProto], extras: &[u64]) -> String {
+    if bytes.len() != 1 {
+        return format!("fds {}", bytes.len());
+    }
+    match FileDescriptorProto::decode(&bytes[0][..]) {
+        Err(_) => "fd-undecodable".into(),
+        Ok(fd) => match all.iter().position(|x| *x == fd) {
+            Some(i) => {
+                let b = &bytes[0];
+                let w = if extras[i] != 0 {
+                    "-".to_string()
+                } else if b.len() <= 96 {
+                    hex(b)
+                } else {
+                    format!("h{:016x}", fnv1a(b))
+                };
+                format!("fd {} {}", i, w)
+            }
+            None => "fd-unknown".into(),
+        },
+    }
+}
+
+macro_rules! drive_version {
+    ($fname:ident, $pb:path, $build:ident) => {
+        fn $fname(c: &Case, encoded: &[Option<Vec<u8>>], all: &[FileDescriptorProto], extras: &[u64]) -> String {
+            use $pb as pb;
+            use pb::server_reflection_client::ServerReflectionClient;
+            use pb::server_reflection_request::MessageRequest;
+            use pb::server_reflection_response::MessageResponse;
+            let svc = match builder_for(c, encoded).$build() {
+                Err(e) => return build_err(&e),
+                Ok(s) => s,
+            };
+            let rt = tokio::runtime::Builder::new_current_thread().enable_all().build().unwrap();
+            let mut out: Vec<String> = vec!["ok".into()];
+            for stream in &c.streams {
+                let reqs: Vec<pb::ServerReflectionRequest> = stream
+                    .iter()
+                    .map(|r| pb::ServerReflectionRequest {
+                        host: r.host.clone(),
+                        message_request: match &r.k {
+                            ReqK::N => None,
+                            ReqK::F(s) => Some(MessageRequest::FileByFilename(s.clone())),
+                            ReqK::Y(s) => Some(MessageRequest::FileContainingSymbol(s.clone())),
+                            ReqK::X(s, n) => Some(MessageRequest::FileContainingExtension(pb::ExtensionRequest {
+                                containing_type: s.clone(),
+                                extension_number: *n,
+                            })),
+                            ReqK::A(s) => Some(MessageRequest::AllExtensionNumbersOfType(s.clone())),
+                            ReqK::L(s) => Some(MessageRequest::ListServices(s.clone())),
+                        },
+                    })
+                    .collect();
+                let sent = reqs.clone();
+                let svc = svc.clone();
+                let toks: Vec<String> = rt.block_on(async move {
+                    let mut o: Vec<String> = vec!["[".into()];
+                    let mut client = ServerReflectionClient::new(svc);
+                    let resp = client.server_reflection_info(tokio_stream::iter(reqs)).await;
+                    let mut inbound = match resp {
+                        Err(st) => {
+                            o.push(format!("call-err {} {}", st.code() as i32, hex(st.message().as_bytes())));
+                            o.push("]".into());
+                            return o;
+                        }
+                        Ok(r) => r.into_inner(),
+                    };
+                    let mut idx = 0usize;
+                    loop {
+                        match inbound.message().await {
+                            Ok(Some(m)) => {
+                                let echo = idx < sent.len()
+                                    && m.valid_host == sent[idx].host
+                                    && m.original_request.as_ref() == Some(&sent[idx]);
+                                o.push(if echo { "r1".into() } else { "r0".into() });
+                                match m.message_response {
+                                    None => o.push("empty".into()),
+                                    Some(MessageResponse::FileDescriptorResponse(f)) => {
+                                        o.push(fd_token(&f.file_descriptor_proto, all, extras))
+                                    }
+                                    Some(MessageResponse::AllExtensionNumbersResponse(e)) => {
+                                        if e == pb::ExtensionNumberResponse::default() {
+                                            o.push("ext-empty".into())
+                                        } else {
+                                            o.push("ext-other".into())
+                                        }
+                                    }
+                                    Some(MessageResponse::ListServicesResponse(l)) => {
+                                        o.push(format!("svcs {}", l.service.len()));
+                                        for s in &l.service {
+                                            o.push(hex(s.name.as_bytes()));
+                                        }
+                                    }
+                                    Some(MessageResponse::ErrorResponse(e)) => {
+                                        o.push(format!("error-response {}", e.error_code))
+                                    }
+                                }
+                                idx += 1;
+                                if idx > sent.len() + 4 {
+                                    o.push("runaway".into());
+                                    break;
+                                }
+                            }
+                            Ok(None) => {
+                                o.push("end".into());
+                                break;
+                            }
+                            Err(st) => {
+                                o.push(format!("err {} {}", st.code() as i32, hex(st.message().as_bytes())));
+                                break;
+                            }
+                        }
+                    }
+                    o.push("]".into());
+                    o
+                });
+                out.extend(toks);
+            }
+            out.join(" ")
+        }
+    };
+}
+drive_version!(drive_v1, tonic_reflection::pb::v1, build_v1);
+drive_version!(drive_v1alpha, tonic_reflection::pb::v1alpha, build_v1alpha);
+
+pub fn execute(case: &str) -> String {
+    let c = match parse_case(case) {
+        Some(c) => c,
+        None => return "bad-case".into(),
+    };
+    let (own1, own1a) = own_protos();
+    if let Some((a, b)) = &c.own {
+        if *a != file_of_proto(&own1) || *b != file_of_proto(&own1a) {
+            return "bad-case own-descriptor-differs".into();
+        }
+    }
+    // bytes for the encoded registrations (prost encoding of the descriptor set, or the raw bytes)
+    let encoded: Vec<Option<Vec<u8>>> = c
+        .regs
+        .iter()
+        .map(|r| match r {
+            Reg::S(_) => None,
+            Reg::E(fs) => Some(FileDescriptorSet { file: fs.iter().map(file_proto).collect() }.encode_to_vec()),
+            Reg::B(b) => Some(b.clone()),
+        })
+        .collect();
+    // all registered descriptors in registration (call) order; own descriptor last
+    let mut all: Vec<FileDescriptorProto> = Vec::new();
+    for r in &c.regs {
+        match r {
+            Reg::S(fs) | Reg::E(fs) => all.extend(fs.iter().map(file_proto)),
+            Reg::B(_) => {}
+        }
+    }
+    let mut extras: Vec<u64> = Vec::new();
+    for r in &c.regs {
+        match r {
+            Reg::S(fs) | Reg::E(fs) => extras.extend(fs.iter().map(|f| f.extra)),
+            Reg::B(_) => {}
+        }
+    }
+    let mut all1 = all.clone();
+    let mut all1a = all;
+    if c.inc {
+        all1.push(own1);
+        all1a.push(own1a);
+        extras.push(OPAQUE);
+    }
+    let a = drive_v1(&c, &encoded, &all1, &extras);
+    let b = drive_v1alpha(&c, &encoded, &all1a, &extras);
+    // leading class token: only for the evidence statistics (the model prints it too)
+    let class = if a.starts_with("ok") {
+        "built"
+    } else if a.starts_with("build-err decode") {
+        "rejected-undecodable"
+    } else {
+        "rejected-unnamed"
+    };
+    format!("{} v1 {} v1a {}", class, a, b)
+}
+
+// ---------------------------------------------------------------- generation
+
+/// Small name pools so that collisions (same symbol in two files, a message named like a package,
+/// a dotted name that looks like a nested one) are frequent.
+const IDENTS: [&str; 14] = ["A", "B", "C", "a", "b", "Ab", "A.B", "p", "q", "", "é", "名", "A_", "a.b"];
+const PKGS: [&str; 9] = ["", "p", "p.q", "A", "a.b", "q", "p.q.r", "é", "A.B"];
+const FILES: [&str; 7] = ["a.proto", "b.proto", "dir/a.proto", "", "A", "c.proto", "reflection_v1.proto"];
+
+struct G<'a> {
+    rng: &'a mut Rng,
+    /// probability (percent) of a missing name at each position
+    p_missing: u64,
+}
+impl<'a> G<'a> {
+    fn ident(&mut self) -> Nm {
+        if self.rng.chance(self.p_missing, 100) {
+            return None;
+        }
+        if self.rng.chance(1, 12) {
+            // a fresh longer name
+            let n = self.rng.range(1, 6) as usize;
+            return Some((0..n).map(|_| *self.rng.pick(&['x', 'Y', 'z', '_', '1'])).collect());
+        }
+        Some((*self.rng.pick(&IDENTS)).to_string())
+    }
+    fn count(&mut self, max: u64) -> usize {
+        // biased to 0,1,2
+        match self.rng.below(8) {
+            0 | 1 => 0,
+            2 | 3 | 4 => 1,
+            5 | 6 => 2.min(max) as usize,
+            _ => self.rng.range(0, max) as usize,
+        }
+    }
+    fn names(&mut self, max: u64) -> Vec<Nm> {
+        let k = self.count(max);
+        (0..k).map(|_| self.ident()).collect()
+    }
+    fn enumd(&mut self) -> EnumD {
+        EnumD { name: self.ident(), values: self.names(3) }
+    }
+    fn msg(&mut self, depth: u64) -> Msg {
+        let nested = if depth == 0 {
+            vec![]
+        } else {
+            let k = if self.rng.chance(1, 3) { self.count(2).max(1) } else { self.count(2) };
+            (0..k).map(|_| self.msg(depth - 1)).collect()
+        };
+        let ne = self.count(2);
+        Msg {
+            name: self.ident(),
+            nested,
+            enums: (0..ne).map(|_| self.enumd()).collect(),
+            fields: self.names(3),
+            oneofs: self.names(2),
+        }
+    }
+    fn file(&mut self) -> FileD {
+        let depth = *self.rng.pick(&[0u64, 1, 1, 2, 2, 3, 4]);
+        let nm = self.count(3);
+        let ne = self.count(2);
+        let ns = self.count(2);
+        let name = if self.rng.chance(self.p_missing, 100) {
+            None
+        } else {
+            Some((*self.rng.pick(&FILES)).to_string())
+        };
+        let package = match self.rng.below(10) {
+            0 | 1 => None,
+            _ => Some((*self.rng.pick(&PKGS)).to_string()),
+        };
+        FileD {
+            name,
+            package,
+            extra: *self.rng.pick(&[0u64, 0, 0, 1, 2, 3, 4]),
+            msgs: (0..nm).map(|_| self.msg(depth)).collect(),
+            enums: (0..ne).map(|_| self.enumd()).collect(),
+            svcs: (0..ns).map(|_| Svc { name: self.ident(), methods: self.names(3) }).collect(),
+        }
+    }
+}
+
+/// Independent enumeration of the fully-qualified names a file declares (used only to pick
+/// queries; the verdict is computed in Lean).
+fn q(pre: &str, n: &str) -> String {
+    if pre.is_empty() {
+        n.to_string()
+    } else {
+        format!("{}.{}", pre, n)
+    }
+}
+fn enum_names(pre: &str, e: &EnumD, out: &mut Vec<String>) {
+    if let Some(n) = &e.name {
+        let en = q(pre, n);
+        for v in e.values.iter().flatten() {
+            out.push(q(&en, v));
+            out.push(q(pre, v)); // protobuf's own (sibling) scoping of enum values: a near miss here
+        }
+        out.push(en);
+    }
+}
+fn msg_names(pre: &str, m: &Msg, out: &mut Vec<String>) {
+    if let Some(n) = &m.name {
+        let mn = q(pre, n);
+        for x in &m.nested {
+            msg_names(&mn, x, out);
+        }
+        for e in &m.enums {
+            enum_names(&mn, e, out);
+        }
+        for f in m.fields.iter().chain(m.oneofs.iter()).flatten() {
+            out.push(q(&mn, f));
+        }
+        out.push(mn);
+    }
+}
+fn file_names(f: &FileD, out: &mut Vec<String>) {
+    let pkg = f.package.clone().unwrap_or_default();
+    for m in &f.msgs {
+        msg_names(&pkg, m, out);
+    }
+    for e in &f.enums {
+        enum_names(&pkg, e, out);
+    }
+    for s in &f.svcs {
+        if let Some(n) = &s.name {
+            let sn = q(&pkg, n);
+            for m in s.methods.iter().flatten() {
+                out.push(q(&sn, m));
+            }
+            out.push(sn);
+        }
+    }
+    if !pkg.is_empty() {
+        out.push(pkg); // a package is not a symbol of the index
+    }
+}
+
+fn mutate_name(rng: &mut Rng, s: &str) -> String {
+    let parts: Vec<&str> = s.split('.').collect();
+    match rng.below(12) {
+        0 => format!("{}.", s),
+        1 => format!(".{}", s),
+        2 => {
+            // drop one component
+            if parts.len() > 1 {
+                let k = rng.below(parts.len() as u64) as usize;
+                parts.iter().enumerate().filter(|(i, _)| *i != k).map(|(_, p)| *p).collect::<Vec<_>>().join(".")
+            } else {
+                String::new()
+            }
+        }
+        3 => {
+            // duplicate one component
+            let k = rng.below(parts.len() as u64) as usize;
+            let mut v = parts.clone();
+            v.insert(k, parts[k]);
+            v.join(".")
+        }
+        4 => s.to_uppercase(),
+        5 => s.to_lowercase(),
+        6 => s.replace('.', ".."),
+        7 => s.replacen('.', "", 1),
+        8 => format!("{}x", s),
+        9 => {
+            // swap two components
+            let mut v = parts.clone();
+            if v.len() > 1 {
+                let k = rng.below(v.len() as u64 - 1) as usize;
+                v.swap(k, k + 1);
+            }
+            v.join(".")
+        }
+        10 => {
+            let mut cs: Vec<char> = s.chars().collect();
+            cs.pop();
+            cs.into_iter().collect()
+        }
+        _ => format!("{}.{}", s, rng.pick(&IDENTS)),
+    }
+}
+
+fn host(rng: &mut Rng) -> String {
+    (*rng.pick(&["", "", "h", "localhost:50051", "é"])).to_string()
+}
+
+/// Request streams for a set of files: every declared name, every file name, near misses,
+/// services, extension requests; an error ends a stream, so possibly-unknown names go last.
+fn streams_for(rng: &mut Rng, files: &[&FileD], own: Option<&(FileD, FileD)>, dense: bool) -> Vec<Vec<Req>> {
+    let mut declared: Vec<String> = Vec::new();
+    for f in files {
+        file_names(f, &mut declared);
+    }
+    let mut fnames: Vec<String> = files.iter().filter_map(|f| f.name.clone()).collect();
+    if let Some((a, b)) = own {
+        let mut on = Vec::new();
+        file_names(a, &mut on);
+        file_names(b, &mut on);
+        // a few of the own names
+        for _ in 0..3 {
+            declared.push(rng.pick(&on).clone());
+        }
+        fnames.push(a.name.clone().unwrap());
+        fnames.push(b.name.clone().unwrap());
+    }
+    let set: BTreeSet<String> = declared.iter().cloned().collect();
+    let declared: Vec<String> = set.into_iter().collect();
+    // `ok`: requests expected to be answered; `bad`: requests expected to end the stream.  (The
+    // expectation is only used to arrange the streams; the model and the spec decide.)
+    let mut ok: Vec<ReqK> = Vec::new();
+    let mut bad: Vec<ReqK> = Vec::new();
+    ok.push(ReqK::L(String::new()));
+    let cap = if dense { 60 } else { 24 };
+    let mut pick: Vec<String> = declared.clone();
+    while pick.len() > cap {
+        let k = rng.below(pick.len() as u64) as usize;
+        pick.swap_remove(k);
+    }
+    for n in &pick {
+        ok.push(ReqK::Y(n.clone()));
+    }
+    for n in &fnames {
+        ok.push(ReqK::F(n.clone()));
+    }
+    // near misses
+    let nmut = if dense { 16 } else { 8 };
+    for _ in 0..nmut {
+        if !declared.is_empty() {
+            let n = rng.pick(&declared).clone();
+            bad.push(ReqK::Y(mutate_name(rng, &n)));
+        }
+    }
+    for _ in 0..3 {
+        if !fnames.is_empty() {
+            let n = rng.pick(&fnames).clone();
+            bad.push(ReqK::F(mutate_name(rng, &n)));
+            // a symbol asked as a file and a file asked as a symbol
+            bad.push(ReqK::Y(n));
+        }
+        if !declared.is_empty() {
+            bad.push(ReqK::F(rng.pick(&declared).clone()));
+        }
+    }
+    bad.push(ReqK::Y(String::new()));
+    bad.push(ReqK::F(String::new()));
+    bad.push(ReqK::Y("no.such.Symbol".into()));
+    ok.push(ReqK::A(declared.first().cloned().unwrap_or_default()));
+    bad.push(ReqK::X(declared.first().cloned().unwrap_or_default(), rng.below(5) as i32));
+    bad.push(ReqK::N);
+    ok.push(ReqK::L("*".into()));
+    for v in [&mut ok, &mut bad] {
+        for i in (1..v.len()).rev() {
+            let j = rng.below(i as u64 + 1) as usize;
+            v.swap(i, j);
+        }
+    }
+    // streams: a run of 0..5 `ok` requests, then usually one `bad` one (which ends the stream),
+    // sometimes followed by more requests that must then stay unanswered
+    let mut streams: Vec<Vec<Req>> = Vec::new();
+    if rng.chance(1, 8) {
+        // one long stream with every request expected to be answered (the response channel has
+        // capacity 1: exercises the loop's back-pressure path), then one that ends it
+        let mut cur: Vec<Req> = ok.drain(..).map(|k| Req { host: host(rng), k }).collect();
+        if let Some(r) = bad.pop() {
+            cur.push(Req { host: host(rng), k: r });
+        }
+        streams.push(cur);
+    }
+    while !ok.is_empty() || !bad.is_empty() {
+        let mut cur: Vec<Req> = Vec::new();
+        let k = rng.range(0, 5) as usize;
+        for _ in 0..k {
+            if let Some(r) = ok.pop() {
+                cur.push(Req { host: host(rng), k: r });
+            }
+        }
+        if ok.is_empty() || rng.chance(4, 5) {
+            if let Some(r) = bad.pop() {
+                cur.push(Req { host: host(rng), k: r });
+                if rng.chance(1, 6) {
+                    cur.push(Req { host: host(rng), k: ReqK::L(String::new()) });
+                }
+            }
+        }
+        if !cur.is_empty() {
+            streams.push(cur);
+        }
+    }
+    if rng.chance(1, 10) {
+        streams.push(Vec::new()); // a stream with no request at all
+    }
+    streams
+}
+
+fn own_files() -> (FileD, FileD) {
+    let (a, b) = own_protos();
+    (file_of_proto(&a), file_of_proto(&b))
+}
+
+fn all_files(regs: &[Reg]) -> Vec<&FileD> {
+    let mut v = Vec::new();
+    for r in regs {
+        match r {
+            Reg::S(fs) | Reg::E(fs) => v.extend(fs.iter()),
+            Reg::B(_) => {}
+        }
+    }
+    v
+}
+
+fn finish(kind: &str, rng: &mut Rng, inc: bool, chosen: Option<Vec<String>>, regs: Vec<Reg>, dense: bool) -> String {
+    let own = if inc { Some(own_files()) } else { None };
+    let streams = {
+        let files = all_files(&regs);
+        streams_for(rng, &files, own.as_ref(), dense)
+    };
+    format!("{} {}", kind, render_case(&Case { inc, chosen, regs, streams, own }))
+}
+
+fn undecodable(rng: &mut Rng) -> Vec<u8> {
+    // candidates that prost rejects as a FileDescriptorSet; verified here with prost itself
+    let cands: Vec<Vec<u8>> = vec![
+        vec![0x0a, 0x05, 0x01],             // truncated length-delimited field
+        vec![0x0a],                         // tag without length
+        vec![0xff, 0xff, 0xff, 0xff, 0xff, 0xff, 0xff, 0xff, 0xff, 0xff, 0xff], // overlong varint
+        vec![0x0b, 0x00],                   // wire type 3 for field 1
+        vec![0x0a, 0x02, 0x0a, 0x05],       // inner truncated string
+        vec![0x0a, 0x03, 0x0a, 0x01, 0xff], // name is not UTF-8
+        vec![0x0f],                         // invalid wire type 7
+    ];
+    loop {
+        let c = if rng.chance(3, 4) { rng.pick(&cands).clone() } else { let n = rng.range(1, 12) as usize; rng.bytes(n) };
+        if FileDescriptorSet::decode(&c[..]).is_err() {
+            return c;
+        }
+    }
+}
+
+fn m(name: &str, nested: Vec<Msg>, enums: Vec<EnumD>, fields: &[&str], oneofs: &[&str]) -> Msg {
+    Msg {
+        name: Some(name.into()),
+        nested,
+        enums,
+        fields: fields.iter().map(|s| Some(s.to_string())).collect(),
+        oneofs: oneofs.iter().map(|s| Some(s.to_string())).collect(),
+    }
+}
+fn en(name: &str, values: &[&str]) -> EnumD {
+    EnumD { name: Some(name.into()), values: values.iter().map(|s| Some(s.to_string())).collect() }
+}
+fn sv(name: &str, methods: &[&str]) -> Svc {
+    Svc { name: Some(name.into()), methods: methods.iter().map(|s| Some(s.to_string())).collect() }
+}
+fn fl(name: &str, pkg: Option<&str>, extra: u64, msgs: Vec<Msg>, enums: Vec<EnumD>, svcs: Vec<Svc>) -> FileD {
+    FileD { name: Some(name.into()), package: pkg.map(|s| s.to_string()), extra, msgs, enums, svcs }
+}
+
+fn corpus(rng: &mut Rng) -> Vec<String> {
+    let mut out = Vec::new();
+    let deep = m(
+        "Outer",
+        vec![m(
+            "Mid",
+            vec![m("Inner", vec![m("Leaf", vec![], vec![en("E", &["V0", "V1"])], &["f"], &["o"])], vec![], &["x"], &[])],
+            vec![en("Kind", &["A", "B"])],
+            &["mid_field"],
+            &["choice"],
+        )],
+        vec![en("Top", &["T0"])],
+        &["a", "b"],
+        &["one"],
+    );
+    let f1 = fl("a.proto", Some("pkg.sub"), 0, vec![deep.clone()], vec![en("FileEnum", &["X", "Y"])], vec![sv("Svc", &["Get", "Put"])]);
+    let f1_nopkg = fl("b.proto", None, 0, vec![deep.clone()], vec![en("FileEnum", &["X"])], vec![sv("Svc", &["Get"])]);
+    let f1_emptypkg = fl("c.proto", Some(""), 1, vec![m("M", vec![], vec![], &["f"], &[])], vec![], vec![sv("S2", &[])]);
+    // 1. tonic's own three test symbols' shape: only the own descriptor
+    out.push(finish("corpus", rng, true, None, vec![], true));
+    // 2. depth-4 nesting, package present / absent / empty
+    out.push(finish("corpus", rng, false, None, vec![Reg::S(vec![f1.clone()])], true));
+    out.push(finish("corpus", rng, false, None, vec![Reg::E(vec![f1_nopkg.clone()])], true));
+    out.push(finish("corpus", rng, true, None, vec![Reg::E(vec![f1.clone(), f1_nopkg.clone(), f1_emptypkg.clone()])], true));
+    // 3. duplicate registration: identical file twice (same set, two sets, decoded + encoded)
+    out.push(finish("corpus", rng, false, None, vec![Reg::S(vec![f1.clone(), f1.clone()])], false));
+    out.push(finish("corpus", rng, false, None, vec![Reg::E(vec![f1.clone()]), Reg::S(vec![f1.clone()])], false));
+    // 4. same file name, different content: encoded registered first, decoded second (the builder
+    //    processes decoded sets first)
+    let f1b = fl("a.proto", Some("other"), 0, vec![m("Only", vec![], vec![], &["z"], &[])], vec![], vec![sv("OtherSvc", &["M"])]);
+    out.push(finish("corpus", rng, false, None, vec![Reg::E(vec![f1.clone()]), Reg::S(vec![f1b.clone()])], true));
+    out.push(finish("corpus", rng, false, None, vec![Reg::S(vec![f1.clone()]), Reg::S(vec![f1b.clone()])], true));
+    out.push(finish("corpus", rng, false, None, vec![Reg::E(vec![f1b.clone(), f1.clone()])], true));
+    // 5. same symbol in two different files (last processed wins)
+    let g1 = fl("x.proto", Some("p"), 0, vec![m("M", vec![], vec![], &["f"], &[])], vec![], vec![sv("S", &["m"])]);
+    let g2 = fl("y.proto", Some("p"), 0, vec![m("M", vec![], vec![], &["g"], &[])], vec![], vec![sv("S", &["n"])]);
+    out.push(finish("corpus", rng, false, None, vec![Reg::S(vec![g1.clone(), g2.clone()])], true));
+    out.push(finish("corpus", rng, false, None, vec![Reg::E(vec![g1.clone()]), Reg::S(vec![g2.clone()])], true));
+    // 6. dotted names that collide with nesting: message "A.B" vs message A { message B }
+    let h1 = fl("h1.proto", None, 0, vec![m("A.B", vec![], vec![], &["f"], &[])], vec![], vec![]);
+    let h2 = fl("h2.proto", Some("A"), 0, vec![m("B", vec![], vec![], &["g"], &[])], vec![], vec![]);
+    out.push(finish("corpus", rng, false, None, vec![Reg::S(vec![h1, h2])], true));
+    // 7. explicitly chosen services (existing, unknown, repeated) vs declared
+    for chosen in [vec!["pkg.sub.Svc".to_string()], vec!["nope".into(), "nope".into()], vec!["pkg.sub.Svc".into(), "S2".into(), "pkg.sub.Svc".into()]] {
+        out.push(finish("corpus", rng, true, Some(chosen.clone()), vec![Reg::S(vec![f1.clone(), f1_emptypkg.clone()])], false));
+        out.push(finish("corpus", rng, false, Some(chosen), vec![Reg::E(vec![f1.clone()])], false));
+    }
+    // 8. missing names at every kind of position
+    let mut miss: Vec<FileD> = Vec::new();
+    let mut x = f1.clone(); x.name = None; miss.push(x);
+    let mut x = f1.clone(); x.msgs[0].name = None; miss.push(x);
+    let mut x = f1.clone(); x.msgs[0].nested[0].nested[0].name = None; miss.push(x);
+    let mut x = f1.clone(); x.msgs[0].enums[0].name = None; miss.push(x);
+    let mut x = f1.clone(); x.msgs[0].enums[0].values[0] = None; miss.push(x);
+    let mut x = f1.clone(); x.msgs[0].fields[1] = None; miss.push(x);
+    let mut x = f1.clone(); x.msgs[0].oneofs[0] = None; miss.push(x);
+    let mut x = f1.clone(); x.enums[0].name = None; miss.push(x);
+    let mut x = f1.clone(); x.enums[0].values[1] = None; miss.push(x);
+    let mut x = f1.clone(); x.svcs[0].name = None; miss.push(x);
+    let mut x = f1.clone(); x.svcs[0].methods[1] = None; miss.push(x);
+    for x in miss {
+        out.push(finish("corpus", rng, false, None, vec![Reg::S(vec![x.clone()])], false));
+        // a skipped duplicate is not examined at all: the bad file hides behind a good one
+        let mut y = x.clone();
+        if y.name.is_some() {
+            out.push(finish("corpus", rng, false, None, vec![Reg::S(vec![f1.clone(), y.clone()])], false));
+            y.name = Some("z.proto".into());
+            out.push(finish("corpus", rng, true, None, vec![Reg::S(vec![f1.clone()]), Reg::E(vec![y])], false));
+        }
+    }
+    // 9. undecodable bytes: alone, after good sets, before a set with a missing name
+    out.push(finish("corpus", rng, false, None, vec![Reg::B(vec![0x0a, 0x05, 0x01])], false));
+    out.push(finish("corpus", rng, true, None, vec![Reg::S(vec![f1.clone()]), Reg::B(vec![0x0a])], false));
+    let mut noname = f1.clone(); noname.name = None;
+    out.push(finish("corpus", rng, false, None, vec![Reg::S(vec![noname]), Reg::B(vec![0x0b, 0x00])], false));
+    // 10. a user file that takes the own descriptor's file name (own descriptor is then skipped)
+    let squat = fl("reflection_v1.proto", Some("grpc.reflection.v1"), 0, vec![m("ServerReflectionRequest", vec![], vec![], &["host"], &[])], vec![], vec![]);
+    out.push(finish("corpus", rng, true, None, vec![Reg::S(vec![squat])], true));
+    // 11. empty everything
+    out.push(finish("corpus", rng, false, None, vec![], false));
+    out.push(finish("corpus", rng, false, None, vec![Reg::S(vec![]), Reg::E(vec![])], false));
+    out.push(finish("corpus", rng, false, None, vec![Reg::S(vec![fl("", Some(""), 0, vec![m("", vec![m("", vec![], vec![], &[""], &[""])], vec![en("", &[""])], &[], &[])], vec![], vec![sv("", &[""])])])], true));
+    out
+}
+
+fn random_case(kind: &str, rng: &mut Rng, p_missing: u64, p_bad: u64, dense: bool) -> String {
+    let mut pool: Vec<FileD> = Vec::new();
+    let nregs = *rng.pick(&[0usize, 1, 1, 2, 2, 3, 4]);
+    let mut regs = Vec::new();
+    for _ in 0..nregs {
+        if rng.chance(p_bad, 100) {
+            regs.push(Reg::B(undecodable(rng)));
+            continue;
+        }
+        let k = *rng.pick(&[0usize, 1, 1, 1, 2, 2, 3]);
+        let mut fs = Vec::new();
+        for _ in 0..k {
+            let f = match rng.below(10) {
+                // exact duplicate of an earlier file
+                0 | 1 if !pool.is_empty() => rng.pick(&pool).clone(),
+                // same name, other content
+                2 if !pool.is_empty() => {
+                    let mut g = G { rng, p_missing };
+                    let mut f = g.file();
+                    f.name = g.rng.pick(&pool).name.clone();
+                    f
+                }
+                // same content, other name / other extra
+                3 if !pool.is_empty() => {
+                    let mut f = rng.pick(&pool).clone();
+                    if rng.chance(1, 2) {
+                        f.name = Some((*rng.pick(&FILES)).to_string());
+                    } else {
+                        f.extra += 1;
+                    }
+                    f
+                }
+                _ => G { rng, p_missing }.file(),
+            };
+            pool.push(f.clone());
+            fs.push(f);
+        }
+        regs.push(if rng.chance(1, 2) { Reg::S(fs) } else { Reg::E(fs) });
+    }
+    let inc = rng.chance(1, 3);
+    let chosen = if rng.chance(1, 5) {
+        let mut declared = Vec::new();
+        for f in &pool {
+            for s in &f.svcs {
+                if let Some(n) = &s.name {
+                    declared.push(q(&f.package.clone().unwrap_or_default(), n));
+                }
+            }
+        }
+        let k = rng.range(1, 3) as usize;
+        Some(
+            (0..k)
+                .map(|_| if !declared.is_empty() && rng.chance(2, 3) { rng.pick(&declared).clone() } else { "x.Unknown".to_string() })
+                .collect(),
+        )
+    } else {
+        None
+    };
+    finish(kind, rng, inc, chosen, regs, dense)
+}
+
+/// Small-scope exhaustive tier: every sequence of up to three registrations (decoded or encoded,
+/// one file each) over a catalogue of file shapes chosen to collide in every way the index can
+/// confuse: same file name / same symbols / dotted names / package = message name / identical
+/// duplicates.  Queries: every name any catalogue file declares, every file name, near misses.
+fn exhaustive() -> Vec<String> {
+    let cat: Vec<FileD> = vec![
+        fl("a.proto", Some("p"), 0, vec![m("M", vec![m("N", vec![], vec![en("E", &["V"])], &["f"], &[])], vec![], &["f"], &["o"])], vec![], vec![sv("S", &["m"])]),
+        // same name as #0, other content
+        fl("a.proto", Some("p"), 0, vec![m("M", vec![], vec![], &["g"], &[])], vec![en("E", &["V"])], vec![sv("T", &["m"])]),
+        // other name, overlapping symbols with #0
+        fl("b.proto", Some("p"), 0, vec![m("M", vec![], vec![], &["f", "h"], &[])], vec![], vec![sv("S", &["n"])]),
+        // no package; dotted message name colliding with #0's nesting
+        fl("c.proto", None, 0, vec![m("p.M", vec![m("N", vec![], vec![], &[], &[])], vec![], &["f"], &[])], vec![en("p", &["M"])], vec![]),
+        // package equal to a full message name of #0
+        fl("d.proto", Some("p.M"), 1, vec![m("N", vec![], vec![], &["E"], &["f"])], vec![en("o", &[])], vec![sv("N", &["E"])]),
+        // same as #2 except for content the index does not read
+        fl("b.proto", Some("p"), 3, vec![m("M", vec![], vec![], &["f", "h"], &[])], vec![], vec![sv("S", &["n"])]),
+    ];
+    let mut names: BTreeSet<String> = BTreeSet::new();
+    for f in &cat {
+        let mut v = Vec::new();
+        file_names(f, &mut v);
+        names.extend(v);
+    }
+    for extra in ["p.M.N.E.V.x", "p.M.", ".p.M", "M", "p.S.m.m", "p.M.N.V", ""] {
+        names.insert(extra.to_string());
+    }
+    let fnames = ["a.proto", "b.proto", "c.proto", "d.proto", "e.proto"];
+    // every symbol query in its own stream (an error ends a stream), one stream for lists/files
+    let mut streams: Vec<Vec<Req>> = Vec::new();
+    streams.push(vec![Req { host: String::new(), k: ReqK::L(String::new()) }]);
+    for n in &names {
+        streams.push(vec![Req { host: String::new(), k: ReqK::Y(n.clone()) }]);
+    }
+    for n in fnames {
+        streams.push(vec![Req { host: String::new(), k: ReqK::F(n.to_string()) }]);
+    }
+    let mut out = Vec::new();
+    let k = cat.len();
+    let mk = |idx: &[usize], kinds: usize| -> String {
+        let regs: Vec<Reg> = idx
+            .iter()
+            .enumerate()
+            .map(|(j, i)| if (kinds >> j) & 1 == 0 { Reg::S(vec![cat[*i].clone()]) } else { Reg::E(vec![cat[*i].clone()]) })
+            .collect();
+        format!("exhaustive {}", render_case(&Case { inc: false, chosen: None, regs, streams: streams.clone(), own: None }))
+    };
+    for a in 0..k {
+        for kinds in 0..2 {
+            out.push(mk(&[a], kinds));
+        }
+        for b in 0..k {
+            for kinds in 0..4 {
+                out.push(mk(&[a, b], kinds));
+            }
+            for c in 0..k {
+                for kinds in 0..8 {
+                    out.push(mk(&[a, b, c], kinds));
+                }
+            }
+        }
+    }
+    out
+}
+
+pub fn generate(tier: &str, rng: &mut Rng) -> Vec<String> {
+    let thorough = tier == "thorough";
+    let mut out = corpus(rng);
+    // structured: well-named forests
+    let n_struct = if thorough { 30000 } else { 3000 };
+    for _ in 0..n_struct {
+        out.push(random_case("structured", rng, 0, 0, false));
+    }
+    // malformed: missing names, undecodable sets
+    let n_mal = if thorough { 9000 } else { 900 };
+    for i in 0..n_mal {
+        let (kind, pm, pb) = match i % 3 {
+            0 => ("malformed-names", 3, 0),
+            1 => ("malformed-bytes", 0, 25),
+            _ => ("malformed-mixed", 6, 15),
+        };
+        out.push(random_case(kind, rng, pm, pb, false));
+    }
+    if thorough {
+        out.extend(exhaustive());
+    }
+    out
 }
